@@ -44,6 +44,11 @@ func (g *Generator) makeJson() {
 	var setterList []string
 	var exportedList []string
 	for _, f := range g.fields {
+		if f.isEmbeded && !f.isShadowed {
+			//an embedded struct may bring MarshalJSON/UnmarshalJSON of its own (an embedded shoot type generated
+			//with -json does): promoted, they would encode the embedded part only. The type gets its own methods.
+			needJSON = true
+		}
 		if f.isShadowed || f.isEmbeded {
 			continue
 		}
